@@ -269,7 +269,7 @@ theorem sct_is_spec (s : Sct) (hw : SctWf s) : composeSct s = .ok (opaqueVec 655
   obtain ⟨_, hvf, hlog, hts, _, hemax, halg, _, hsmax, hblob⟩ := hw
   simp only at hvf hlog hts hemax halg hsmax hblob
   obtain ⟨_, _, _, _, _, _, _, _, _, _, _, he, hs⟩ := ext2_prefix_widths
-  have h8 : ts < 256 ^ 8 := by omega
+  have h8 : ts < 256 ^ 8 := by have := sctTimestamp_fits hts; omega
   have hoe := composeOpaque_is_spec (p := vp Gen.vec_CtExtensions) (ceiling := 65535) ext he ctExtensionsParam_ok.1
     (by have := ctExtensionsParam_ok.2; omega)
   have hos := composeOpaque_is_spec (p := vp Gen.vec_CtSignature) (ceiling := 65535) sig hs ctSignatureParam_ok.1
